@@ -1,4 +1,5 @@
 import ConfModel.Driver.Common
+import ConfModel.Driver.OSCmd
 import ConfModel.Model.Run
 import ConfModel.Spec.Glob
 namespace ConfModel.Driver.C05
@@ -42,6 +43,7 @@ def maxAlive (ss : List Srv) : Nat :=
 
 def handle : Handler := fun op inp impl =>
   match op with
+  | "osserver" => ConfModel.Driver.OSCmd.judgeServer inp impl
   | "run" =>
     if !(isNull (field impl "panic")) then
       { agree := false, holds := false, why := "panic: " ++ str (field impl "panic") } else
